@@ -142,6 +142,15 @@ pub const META_POOL_ALL: u8 = 7;
 /// Deterministic value bytes: a function of the op position, the length and the fill kind only
 pub fn value_bytes(op_idx: usize, vlen: u32, fill: u8) -> Vec<u8> {
     let n = vlen as usize;
+    if fill == 3 {
+        // a value whose CRC32C is exactly 0 (what the checksum of an EMPTY value is): pseudo-random bytes with a forged tail
+        let mut v = value_bytes(op_idx, vlen, 0);
+        if n >= 4 {
+            let tail = crate::blobfmt::crc32c_forge_suffix(&v[..n - 4], 0);
+            v[n - 4..].copy_from_slice(&tail);
+        }
+        return v;
+    }
     let mut v = Vec::with_capacity(n);
     match fill % 3 {
         1 => v.resize(n, 0),
@@ -182,6 +191,8 @@ pub enum VlenGen {
     Small,
     /// centred on the single-pass (4 KiB) and background-I/O (80 KiB) thresholds, plus small and large values
     Thresholds,
+    /// `Thresholds` plus values around 1 MiB and of 3 MiB
+    ThresholdsBig,
 }
 
 /// Values >= VLEN_REL encode a length relative to a write-path threshold:
@@ -285,6 +296,15 @@ pub fn vlen_thresholds() -> BoxedStrategy<u32> {
     .boxed()
 }
 
+/// `vlen_thresholds` plus values of 1 MiB and more (C05 only: they cost time)
+pub fn vlen_thresholds_big() -> BoxedStrategy<u32> {
+    prop_oneof![
+        19 => vlen_thresholds(),
+        1 => prop_oneof![Just(1_048_575u32), Just(1_048_576u32), Just(1_049_093u32), Just(3_145_729u32)],
+    ]
+    .boxed()
+}
+
 pub fn pred_strategy() -> BoxedStrategy<Pred> {
     prop_oneof![3 => Just(Pred::Always), 1 => Just(Pred::Never), 1 => Just(Pred::Records3), 1 => Just(Pred::NoActive)].boxed()
 }
@@ -320,6 +340,7 @@ pub fn op_strategy(p: &GenParams) -> BoxedStrategy<Op> {
     let vlen = match p.vlen {
         VlenGen::Small => vlen_small(),
         VlenGen::Thresholds => vlen_thresholds(),
+        VlenGen::ThresholdsBig => vlen_thresholds_big(),
     };
     let write = (0..nkeys, ts_strategy(p.ts_span), 0..metas, vlen, 0u8..p.fills.max(1)).prop_map(|(key, ts, meta, vlen, fill)| Op::Write { key, ts, meta, vlen, fill });
     let delete = (0..nkeys, ts_strategy(p.ts_span), 0..metas.min(3), any::<bool>()).prop_map(|(key, ts, meta, only_if)| Op::Delete { key, ts, meta, only_if });
